@@ -552,7 +552,7 @@ static int chmd_fast_find(struct mschm_decompressor *base,
      * https://developercommunity.visualstudio.com/content/problem/363489/c4701-false-positive-warning.html */
     const unsigned char *chunk, *p = NULL, *end = NULL;
     int err = MSPACK_ERR_OK, result = -1;
-    unsigned int n, sec;
+    unsigned int n, sec, visited = 0;
 
     if (!self || !chm || !f_ptr || (f_size != sizeof(struct mschmd_file))) {
         return MSPACK_ERR_ARGS;
@@ -570,6 +570,12 @@ static int chmd_fast_find(struct mschm_decompressor *base,
     if (chm->index_root < chm->num_chunks) {
         n = chm->index_root;
         for (;;) {
+            /* a well-formed index visits each chunk at most once */
+            if (visited++ >= chm->num_chunks) {
+                D(("index chunks form a loop"))
+                sys->close(fh);
+                return self->error = MSPACK_ERR_DATAFORMAT;
+            }
             if (!(chunk = read_chunk(self, chm, fh, n))) {
                 sys->close(fh);
                 return self->error;
@@ -592,6 +598,12 @@ static int chmd_fast_find(struct mschm_decompressor *base,
         for (n = chm->first_pmgl; n <= chm->last_pmgl;
              n = EndGetI32(&chunk[pmgl_NextChunk]))
         {
+            /* a well-formed chain visits each chunk at most once */
+            if (visited++ >= chm->num_chunks) {
+                D(("PMGL chunks form a loop"))
+                err = MSPACK_ERR_DATAFORMAT;
+                break;
+            }
             if (!(chunk = read_chunk(self, chm, fh, n))) {
                 err = self->error;
                 break;
